@@ -47,6 +47,9 @@ def py_swap(a, b):
 
 PYFUNCS = {"len": len, "sum": sum, "py_double": py_double, "py_swap": py_swap}
 
+# every execution of a raising leaf (thread-mode executors share it with the harness): ("raiser", kind, tag)
+CALL_LOG = []
+
 
 # ------------------------------------------------------------------ value tasks
 @task()
@@ -86,6 +89,7 @@ def total(xs):
 
 @task()
 def raiser(kind, tag):
+    CALL_LOG.append(("raiser", kind, tag))
     raise ERR[kind]("%s-%s" % (kind, tag))
 
 
@@ -288,6 +292,7 @@ def s_inc(x):
 
 @task(check_valid="shallow")
 def s_raiser(kind, tag):
+    CALL_LOG.append(("raiser", kind, tag))
     raise ERR[kind]("%s-%s" % (kind, tag))
 
 
